@@ -227,6 +227,23 @@ def jump_side_branch(times: int = 2) -> dict:
     }
 
 
+def jump_body_side_chain(times: int = 2) -> dict:
+    """a -> b -> c[jump to a] -> z with a side chain a -> s -> t inside the loop body that also feeds the jumping
+    join c: every iteration must re-run s and t, and c must wait for both b and t each time."""
+    return {
+        "name": f"jumpbodyside{times}",
+        "confluent": True,
+        "stages": [
+            st("a", [], [dict(OK, out=["a_o", "k"])]),
+            st("b", ["a"], [dict(OK, out=["b_o"])]),
+            st("s", ["a"], [dict(OK, out=["s_o"])]),
+            st("t", ["s"], [dict(OK, out=["t_o", "k"])]),
+            st("c", ["b", "t"], [{"kind": "jump", "to": "a", "times": times, "out": ["c_o"]}]),
+            st("z", ["c"], [dict(OK, out=["z_o"])]),
+        ],
+    }
+
+
 def forward_jump() -> dict:
     """a jumps forward over the diamond b,c,d to e."""
     return {
